@@ -66,6 +66,20 @@ class Flow:
         """canonical source text of a value expression: dotted attribute path on the outermost
         builder's parameter, '[*]' for elements of iterated collections; None if it is constant."""
         e = strip_format(expr)
+        # `x or ()`, `(x,) if x else ()`, a one-element tuple: the value behind the default / the wrapping
+        for _ in range(4):
+            if isinstance(e, ast.BoolOp) and isinstance(e.op, ast.Or) and len(e.values) == 2 and isinstance(e.values[1], (ast.Tuple, ast.List, ast.Constant)) and not getattr(e.values[1], "elts", None):
+                e = e.values[0]
+            elif isinstance(e, ast.IfExp) and isinstance(e.orelse, (ast.Tuple, ast.List)) and not e.orelse.elts:
+                e = e.body
+            elif isinstance(e, ast.IfExp) and isinstance(e.body, (ast.Tuple, ast.List)) and not e.body.elts:
+                e = e.orelse
+            else:
+                break
+        if isinstance(e, (ast.Tuple, ast.List)) and len(e.elts) == 1 and depth > 0:
+            # iterated one-element collection: its element (the caller appends [*])
+            inner = self.source(e.elts[0], frame, loops, depth + 1)
+            return ("one:" + inner) if inner else inner
         if isinstance(e, ast.Constant):
             return "const:%r" % (e.value,)
         if isinstance(e, ast.JoinedStr):
@@ -103,6 +117,8 @@ class Flow:
                 if isinstance(it_e, ast.Call) and call_name(it_e) in ("enumerate", "list", "sorted", "reversed") and it_e.args:
                     it_e = it_e.args[0]
                 base = self.source(it_e, frame, [l for l in loops if l[0] != tgt], depth + 1)
+                if base and base.startswith("one:"):
+                    return ".".join([base[4:]] + rest)
                 return ".".join([(base or "?") + "[*]"] + rest)
         if head == "self" and frame is not None and rest and depth < 12:
             key = "self." + rest[0]
@@ -140,7 +156,7 @@ class Flow:
             if len(ds) == 1 and len(vals) == 1 and not any(isinstance(x, ast.Name) and x.id == head for x in ast.walk(vals[0])):
                 base = self.source(vals[0], frame, loops, depth + 1)
                 if base and not base.startswith("const:"):
-                    return ".".join([base] + rest)
+                    return ".".join([base] + rest) if rest or not base.startswith("one:") else base
         if head == "self" and frame is not None and "self" in frame.binds and frame.binds["self"] is not None:
             b = frame.binds["self"]
             base = self.source(b[0], frame.parent, b[1], depth + 1)
